@@ -179,7 +179,7 @@ def scenario(ctx, n):
     plan = []
     for _ in range(rng.randint(1, 2) if small else rng.randint(1, 4)):
       nm = rng.choice(pool) if rng.random() < 0.7 else 'T%d_%d' % (t, rng.randrange(3))
-      plan.append((rng.choice(['append', 'attr', 'event', 'event+number', 'inner']), nm))
+      plan.append((rng.choice(['append', 'attr', 'event', 'event+number', 'inner', 'lookup', 'lookup']), nm))
     plans.append(plan)
   pol = dict(policy='random', p_switch=rng.choice([0.05, 0.2, 0.5])) if rng.random() < 0.6 else dict(policy='pct', pct_depth=rng.choice([2, 3, 4]), pct_len=400)
   s = ds.Sched(seed=rng.randrange(1 << 30), max_steps=400000, **pol)
@@ -196,6 +196,13 @@ def scenario(ctx, n):
           obs.append((i, nm, sig[nm], 'append'))
         elif route == 'attr':
           obs.append((i, nm, getattr(sig, nm), 'attr'))
+        elif route == 'lookup':
+          # number -> name lookups of names this thread has registered itself, while others register
+          e = EV.Event(signal=nm)
+          for _ in range(2):
+            back = sig.name_for_signal(e.signal)
+            if back != nm:
+              obs.append((i, nm, e.signal, 'name_for_signal(%r):%r' % (e.signal, back)))
         elif route == 'inner':
           # the ten built-ins are inner signals, by name and by number, whatever other threads are registering meanwhile
           b = BUILTINS[(i + len(obs)) % 10]
